@@ -18,7 +18,7 @@ for f in sorted(glob.glob(f'{R}/seeded/*/meta.json')):
     c = m['confirmed']; k = m['check']
     try:
         rc = json.load(open(os.path.join(os.path.dirname(f), 'recheck.json')))
-        if rc.get('disposition'): rtxt = rc['disposition']
+        if rc.get('disposition') or m.get('disposition'): rtxt = rc.get('disposition') or m['disposition']
         elif not rc['patch_applies']: rtxt = 'stale patch'
         else: rtxt = ('caught' + (' with failing input' if rc['caught_with_failing_input'] else ' (no failing input)')) if rc['caught'] else 'MISSED'
         rtxt += f" (/repo {rc['repo_head']})"
